@@ -369,6 +369,22 @@ def step (s : State) : Op → Option State
     -- auctions.go:419-427: `DebtToken` (d, collector asset) arrives, `CollateralToken.Amount` (c, other asset) is recorded
     (creditCollector s asset d).bind fun s1 => setNetFee s1 (app, asset) c
 
+/-- The two closes as they would read after the small repair proposed in notes/C13.md (surplus: hand out the lot that
+`GetAmountFromCollector` already moved to the first-generation auction account and leave the record alone; debt: record what
+arrives). The driver accepts this behaviour as well, so that a repaired tree checks clean; the theorems about it are
+`C13.repaired_surplus_close_exact` and `C13.repaired_debt_close_exact`. Every other op is `step`. -/
+def stepRepaired (s : State) : Op → Option State
+  | .v2SurplusClose _ asset u lot =>
+    match s.bank.send .auction .auctionV2 asset lot with
+    | none => none
+    | some b1 =>
+      match Bank.send b1 .auctionV2 (.user u) asset lot with
+      | none => none
+      | some b2 => some { s with bank := b2 }
+  | .v2DebtClose app asset _ d =>
+    (creditCollector s asset d).bind fun s1 => setNetFee s1 (app, asset) d
+  | op => step s op
+
 def run (s : State) : List Op → Option State
   | [] => some s
   | op :: ops => (step s op).bind fun s1 => run s1 ops
